@@ -88,10 +88,8 @@ func parsimonyUPPASS(cur, prev *tree.Node, a align.Alignment, seqs []*AncestralS
 				possibilities = align.IupacCode[c]
 			} else {
 				if c == align.ALL_AMINO {
-					for k := range charToIndex {
-						possibilities = append(possibilities, k)
-					}
-					possibilities = possibilities[:len(possibilities)-2]
+					// All the characters of the alphabet ('-' and '*' not included)
+					possibilities = append(possibilities, a.AlphabetCharacters()...)
 				} else {
 					possibilities = append(possibilities, c)
 				}
